@@ -32,16 +32,23 @@ QMilli(m, eng) == IF eng = "MTF" THEN 776 * Afr(m) * (1 + Bpr) + 767 ELSE 776 * 
 Ei(sn, m, eng) == IF sn \in {-1, 0} THEN 0
                   ELSE FMul(FMul(Kslm(Capped(sn), eng), Cbc(Capped(sn))), QMilli(m, eng))
 
-VARIABLES sn, out
-svars == <<sn, out>>
-SInit == sn \in SNs /\ out = [sn |-> sn, cbc |-> IF sn > 0 THEN Cbc(Capped(sn)) ELSE 0,
-                              ei |-> [e \in Engines |-> [m \in Modes |-> Ei(sn, m, e)]]]
+\* a certification record is one smoke number PER MODE; the index of a mode depends on that mode's smoke number (and
+\* the mode's own air-fuel ratio) alone - a mode without data does not shift the others
+ModeSeq == <<"idle", "approach", "climb", "takeoff">>
+Uniform == {[m \in Modes |-> s] : s \in SNs}
+MixedTuples == {<<0, 10, 20, 25>>, <<-1, 5, 0, 30>>, <<13, 0, -1, 2>>, <<40, 41, 0, 1>>, <<8, -1, 13, 0>>, <<0, 0, 0, 20>>}
+Mixed == {[m \in Modes |-> t[CHOOSE i \in 1..4 : ModeSeq[i] = m]] : t \in MixedTuples}
+VARIABLES vec, out
+svars == <<vec, out>>
+SInit == vec \in Uniform \cup Mixed
+         /\ out = [sn |-> [m \in Modes |-> vec[m]], ei |-> [e \in Engines |-> [m \in Modes |-> Ei(vec[m], m, e)]]]
 SNext == UNCHANGED svars
 SSpec == SInit /\ [][SNext]_svars
-\* shape: no-data gives nothing, the cap, growth with the smoke number, a mixed turbofan dilutes
-NoDataIsZero == sn \in {-1, 0} => \A e \in Engines, m \in Modes : Ei(sn, m, e) = 0
-CapAt40 == sn > 40 => \A e \in Engines, m \in Modes : Ei(sn, m, e) = Ei(40, m, e)
-Grows == (sn >= 1 /\ sn < 40) => \A e \in Engines, m \in Modes : Ei(sn, m, e) <= Ei(sn + 1, m, e)
-IdleHighestPerSmoke == sn >= 1 => \A e \in Engines : Ei(sn, "idle", e) >= Ei(sn, "takeoff", e)
+\* shape: no-data gives nothing, the cap, growth with the smoke number, idle highest per smoke number
+NoDataIsZero == \A m \in Modes : vec[m] \in {-1, 0} => \A e \in Engines : Ei(vec[m], m, e) = 0
+CapAt40 == \A m \in Modes : vec[m] > 40 => \A e \in Engines : Ei(vec[m], m, e) = Ei(40, m, e)
+Grows == \A m \in Modes : (vec[m] >= 1 /\ vec[m] < 40) => \A e \in Engines : Ei(vec[m], m, e) <= Ei(vec[m] + 1, m, e)
+IdleHighestPerSmoke == \A s \in SNs : s >= 1 => \A e \in Engines : Ei(s, "idle", e) >= Ei(s, "takeoff", e)
+ModesIndependent == \A m \in Modes, e \in Engines : out.ei[e][m] = Ei(vec[m], m, e)
 Emit == PrintT("@@" \o ToJson(out))
 =============================================================================
